@@ -59,6 +59,9 @@ pub enum Dev {
     /// add k offered / received HTLCs of the given value, taken from the offerer's balance
     AddOut(u64, u32, usize),
     AddInc(u64, u32, usize),
+    /// the first offered / received HTLC grows by this much, taken from the offerer's balance
+    RaiseOut(u64),
+    RaiseInc(u64),
     /// raw value / expiry of the first HTLC (no rebalancing)
     HtlcValue(u64),
     HtlcCltv(u32),
@@ -264,6 +267,18 @@ fn effective(case: &Case) -> Eff {
                 for i in 0..*k {
                     e.c.inc.push(H { value_sat: *val, hash: 1, cltv: *cltv + i as u32 % 2 });
                     e.c.to_cp = e.c.to_cp.saturating_sub(*val);
+                }
+            }
+            Dev::RaiseOut(x) => {
+                if let Some(h) = e.c.out.first_mut() {
+                    h.value_sat = h.value_sat.saturating_add(*x);
+                    e.c.to_holder = e.c.to_holder.saturating_sub(*x);
+                }
+            }
+            Dev::RaiseInc(x) => {
+                if let Some(h) = e.c.inc.first_mut() {
+                    h.value_sat = h.value_sat.saturating_add(*x);
+                    e.c.to_cp = e.c.to_cp.saturating_sub(*x);
                 }
             }
             Dev::HtlcValue(x) => {
@@ -638,6 +653,13 @@ fn alphabet(case: &Case) -> Vec<Dev> {
         }
     }
     if n_htlc > 0 {
+        // the in-flight total at its cap with the value spread over both directions
+        for x in around(room) {
+            if x > 0 {
+                v.push(Dev::RaiseOut(x));
+                v.push(Dev::RaiseInc(x));
+            }
+        }
         for l in [lim(tw), lim(sw)] {
             for x in around(l) {
                 v.push(Dev::HtlcValue(x));
